@@ -122,7 +122,11 @@ def e_headers(tier, shard, nshards):
     vers = [0, 7] if tier == "quick" else list(range(8))
     tails = [0, 5] if tier == "quick" else [0, 1, 7, 40]
     for n in range(shard, 4096, nshards):
-        if tier == "quick" and n != 4076:
+        if n == 4076:
+            # every sub-type with every payload length from 3 to 14 bytes (and the tier's longer ones): the header
+            # fields of the IGS family end inside that range, stubs must not care
+            yield {"n": n, "vers": vers, "tails": sorted(set(tails) | set(range(0, 12)))}
+        elif tier == "quick":
             yield {"n": n, "vers": [n % 8], "tails": [n % 3]}
         else:
             yield {"n": n, "vers": vers, "tails": tails}
